@@ -126,7 +126,13 @@ Proof.
     assert (C2 : is_panic (continuous (skipn (N.to_nat (r + s)) hs)) = false)
       by (apply continuous_no_panic; [apply increasing_skipn; exact Hinc | apply Forall_skipn; exact Hhs]).
     destruct (continuous (skipn (N.to_nat (r + s)) hs)) as [c2| |]; cbn [bind]; try reflexivity; [|discriminate].
-    destruct (negb c2); [reflexivity|]. destruct (negb (v_root_ok ml)); [reflexivity|].
+    destruct (negb c2); [reflexivity|].
+    assert (C3 : is_panic (ends_at_parent hs ml) = false).
+    { unfold ends_at_parent. destruct (last_hdr hs) as [p|]; [|reflexivity].
+      destruct (N.leb_spec (v_num ml) (v_num p)) as [Hle|Hlt]; [reflexivity|].
+      apply is_parent_no_panic. destruct Hml; lia. }
+    destruct (ends_at_parent hs ml) as [c3| |]; cbn [bind]; try reflexivity; [|discriminate].
+    destruct (negb c3); [reflexivity|]. destruct (negb (v_root_ok ml)); [reflexivity|].
     destruct (N.eqb_spec mmr 3); [contradiction|]. destruct (negb (mmr =? 0)); [reflexivity|].
     assert (TD : is_panic (td_gate ps tau ml s) = false).
     { unfold td_gate. destruct (negb (s =? 0)); [|reflexivity]. destruct ps as [old|]; [|reflexivity].
